@@ -267,9 +267,9 @@ Proof.
   apply ledit_app; [apply ledit_refl|]. rewrite <- (app_nil_r w). apply ledit_drop; [exact Hw | constructor].
 Qed.
 
-Lemma sw_paren_edit l out : sw_paren l = Ok out -> ledit l out.
+Lemma sw_paren_body_edit l out : sw_paren_body l = Ok out -> ledit l out.
 Proof.
-  unfold sw_paren.
+  unfold sw_paren_body.
   destruct (sw_pop1 l) as [l1|] eqn:E1; [|discriminate]. simpl.
   destruct (sw_popm2 l1) as [l2|] eqn:E2; [|discriminate]. simpl.
   destruct (sw_inner l2) as [l3|] eqn:E3; [|discriminate]. simpl.
@@ -294,6 +294,12 @@ Proof.
       apply ledit_app; [|apply ledit_refl].
       apply sw_pop_last_ws_edit in Hk. unfold ledit in *. simpl. rewrite !app_nil_r. exact Hk. }
   eapply ledit_trans; [exact H1|]. eapply ledit_trans; [exact H2 | exact H3].
+Qed.
+
+Lemma sw_paren_edit l out : sw_paren l = Ok out -> ledit l out.
+Proof.
+  unfold sw_paren. destruct l as [|a [|b r]]; try apply sw_paren_body_edit;
+    intros H; injection H as <-; apply sw_default_go_edit.
 Qed.
 
 Lemma sw_dispatch_edit c l out : sw_dispatch c l = Ok out -> ledit l out.
@@ -503,7 +509,9 @@ Proof.
       split; [exact HP' | exact Hl']. }
   destruct E3 as (y' & E3 & Hy' & HPy' & Hgl).
   exists (sw_default (init ++ [y'; lst])). split.
-  { unfold sw_paren, sw_pop1. rewrite E1. simpl. rewrite E2. simpl. rewrite E3. reflexivity. }
+  { assert (Hb : sw_paren (k0 :: rest) = sw_paren_body (k0 :: rest))
+      by (destruct rest; [discriminate | reflexivity]).
+    rewrite Hb. unfold sw_paren_body, sw_pop1. rewrite E1. simpl. rewrite E2. simpl. rewrite E3. reflexivity. }
   split; [|split; [apply dnf_go_default|split]].
   - (* paren_nf *)
     unfold paren_nf. apply andb_true_iff. split.
@@ -664,11 +672,11 @@ Proof. rewrite forallb_app. intros H. apply andb_true_iff in H. apply H. Qed.
 Lemma forallb_app_r {A} (f : A -> bool) a b : forallb f (a ++ b) = true -> forallb f b = true.
 Proof. rewrite forallb_app. intros H. apply andb_true_iff in H. apply H. Qed.
 
-Lemma sw_paren_edge l out :
-  sw_paren l = Ok out -> first_non_ws l = true -> last_non_ws l = true -> forallb edge_ok l = true ->
+Lemma sw_paren_body_edge l out :
+  sw_paren_body l = Ok out -> first_non_ws l = true -> last_non_ws l = true -> forallb edge_ok l = true ->
   first_non_ws out = true /\ last_non_ws out = true /\ forallb edge_ok out = true.
 Proof.
-  unfold sw_paren.
+  unfold sw_paren_body.
   destruct (sw_pop1 l) as [l1|] eqn:E1; [|discriminate]. simpl.
   destruct (sw_popm2 l1) as [l2|] eqn:E2; [|discriminate]. simpl.
   destruct (sw_inner l2) as [l3|] eqn:E3; [|discriminate]. simpl.
@@ -758,7 +766,9 @@ Proof.
     + injection E2 as <-. apply Hdef; [apply sw_idlist_rm_first, Hf | apply sw_idlist_rm_last, Hl|].
       apply forallb_forall. apply Forall_forall. apply sw_idlist_rm_Forall.
       apply Forall_forall. apply forallb_forall. exact Hall1.
-    + destruct (sw_paren_edge _ _ E2 Hf Hl Hall1) as (H1 & H2 & H3). rewrite H1, H2, H3. reflexivity.
+    + unfold sw_paren in E2. destruct kids1 as [|a0 [|b0 r0]];
+        [injection E2 as <-; apply Hdef; assumption | injection E2 as <-; apply Hdef; assumption|].
+      destruct (sw_paren_body_edge _ _ E2 Hf Hl Hall1) as (H1 & H2 & H3). rewrite H1, H2, H3. reflexivity.
 Qed.
 
 (* first / last leaf of an edge_ok group are not whitespace *)
